@@ -227,7 +227,7 @@ func init() {
 }
 
 func c20Opts() (gen.TypeOpts, gen.ValueOpts) {
-	leaf := []reflect.Type{gen.TString, gen.TBool, gen.TInt, gen.TInt8, gen.TInt16, gen.TInt32, gen.TInt64, gen.TUint, gen.TUint16, gen.TUint32, gen.TUint64, gen.TFloat32, gen.TFloat64, gen.TString, gen.TInt}
+	leaf := []reflect.Type{gen.TString, gen.TBool, gen.TInt, gen.TInt8, gen.TInt16, gen.TInt32, gen.TInt64, gen.TUint, gen.TUint16, gen.TUint32, gen.TUint64, gen.TFloat32, gen.TFloat64, gen.TString, gen.TInt, gen.TUintptr, gen.TGInt, gen.TGUint, gen.TGStr}
 	to := gen.TypeOpts{MaxFields: 6, MaxDepth: 3, Leaf: leaf, Unexported: true, EmptyStruct: true, Ptr: true, Slices: true, Arrays: true, Maps: true, SliceOfSlice: true, ContainerOfLeaf: true}
 	vo := gen.ValueOpts{PZero: 0.2, PEmpty: 0.2, MaxLen: 3, NilElems: true,
 		Str: func(rng *rand.Rand) string {
